@@ -1095,7 +1095,7 @@ class WalletTransaction(Transaction):
                 if change_outputs:
                     change_outputs[0].value += self.inputs[new_inp].value
                 else:
-                    self.add_output(self.inputs[new_inp].value, self.hdwallet.get_key().address, change=True)
+                    self.add_output(self.inputs[new_inp].value, self.hdwallet.get_key_change().address, change=True)
                     if fees_not_provided:
                         extra_fee += 25 * BUMPFEE_DEFAULT_MULTIPLIER
                 super(WalletTransaction, self).bumpfee(fee, extra_fee)
